@@ -100,6 +100,9 @@ inductive Matcher where
   | atom (f : Field) (vals : List Nat)
   | err (kind st : Nat)
   | legacy (b : Bool)
+  | errRange (lo hi : Nat)       -- real `expression` matcher, what `handle_errors 4xx` adapts to:
+                                 -- "{http.error.status_code} >= lo && {http.error.status_code} <= hi"
+  | errIn (codes : List Nat)     -- "{http.error.status_code} in [c, …]"  (`handle_errors 404 500`)
   | not (sets : List (List Matcher))
 
 /-- `(bool, error)` of the `MatchWithError` family -/
@@ -114,6 +117,14 @@ def evalMatcher : Matcher → Req → MRes
   | .atom f vals, r => .ok (vals.contains (r.get f))
   | .err _ st, _ => .err st
   | .legacy b, _ => .ok b
+  | .errRange lo hi, r =>
+    match r.replStatus with
+    | some c => .ok (decide (lo ≤ c) && decide (c ≤ hi))
+    | none => .err 0               -- CEL: "no such overload: _>=_" on the unset placeholder
+  | .errIn codes, r =>
+    match r.replStatus with
+    | some c => .ok (codes.contains c)
+    | none => .ok false
   | .not sets, r => evalNot sets r
 /-- `MatchNot.MatchWithError`: an error aborts, a matching set makes the result false -/
 def evalNot : List (List Matcher) → Req → MRes
